@@ -179,6 +179,41 @@ def c07_validation(i: int) -> bool:
     return ok
 
 
+DEFAULT_ORDER_TEXTS = [
+    ("constructor", "class A { A(int a = 2, double b); };"),
+    ("method", "class A { A(); void f(int a = 2, double b) const; };"),
+    ("static method", "class A { A(); static double f(int a = 2, double b); };"),
+    ("free function", "namespace n { double f(int a = 2, double b); }"),
+    ("constructor of a class template", "template<T = {double}> class A { A(T lo = 0, T hi, bool closed = true); };"),
+    ("member template", "class A { A(); template<U = {int}> void f(U a = 1, double b) const; };"),
+    ("second overload", "class A { A(); A(int ok, double fine = 1); A(int a = 2, double b); };"),
+]
+
+
+def c07_matlab_default_order(i: int) -> bool:
+    """
+    MATLAB generator: a parameter with a default value in front of one without is a validation error for EVERY kind of
+    callable (constructor, method, static method, free function, templates, any overload) — through the API and through
+    the script — and the failing run writes nothing.  (The pybind generator performs no such validation and is not judged.)
+    pre: 0 <= i < len(DEFAULT_ORDER_TEXTS)
+    post: _
+    """
+    i = pick(i, 0, len(DEFAULT_ORDER_TEXTS))
+    with concrete():
+        label, text = DEFAULT_ORDER_TEXTS[i]
+        outcomes = run_all(text)
+        problems = []
+        for entry in ("matlab_api", "matlab_script"):
+            status, written, dirs = outcomes[entry]
+            if status == "ok":
+                problems.append("%s accepted a default value in front of a parameter without one (%s) and wrote %r" % (entry, label, written[:4]))
+            elif written or dirs:
+                problems.append("%s failed (%s) but created %r %r" % (entry, status, written, dirs))
+        ok = not problems or _fail(label=label, text=text, problems=problems)
+    reached({"callable": DEFAULT_ORDER_TEXTS[i][0]})
+    return ok
+
+
 MF_DECLS = [
     "namespace one { class A { A(); }; }",
     "namespace two { class B { B(); void run() const; }; double fb(int x); }",
@@ -227,5 +262,6 @@ def conds(tier):
                 bounds="5 corruption kinds x %s token positions%s, 6 entry points each" % (("all %d" % NB) if not q else ("every third of %d" % NB), " x 5 stray tokens per position" if not q else " (stray token derived)")),
         xh.Cond(M, "c07_multifile", t(200, 600), kind="shape-bounded", examples=["cut1=2, cut2=4, rot=0", "cut1=1, cut2=1, rot=3", "cut1=0, cut2=3, rot=5", "cut1=2, cut2=2, rot=1", "cut1=3, cut2=6, rot=0"],
                 bounds="6 top-level declarations in 6 rotations, split into 1-3 files at every pair of cut points"),
+        xh.Cond(M, "c07_matlab_default_order", t(120, 300), kind="shape-bounded", examples=["i=0", "i=4", "i=6"], bounds="%d kinds of callable x 2 MATLAB entry points" % len(DEFAULT_ORDER_TEXTS)),
         xh.Cond(M, "c07_validation", t(120, 300), kind="shape-bounded", examples=["i=0", "i=4"], bounds="%d rule violations x 6 entry points" % NI),
     ]
